@@ -424,7 +424,7 @@ def unit_norm(name):
                 ctx.equal("bwd.dinh[%s,s=%d]" % (mode, s), hyps, dfdinh[s], base_inh[s] + g0[s] * tm.diff(val[s], inh0[s]), fq[:2], rp)
         ctx.canary("bwd.canary-2x", hyps, dfdx[0], 2 * g0[0] * tm.diff(val[0], x0[0]))
         # pointwise
-        cross = [1 for s in range(NS) for v in (x0, rho0, inh0) if v[1 - s] in tm.subterms(val[s]).values()]
+        cross = [1 for s in range(NS) for s2 in range(NS) if s2 != s for v in (x0, rho0, inh0) if v[s2] in tm.subterms(val[s]).values()]
         ctx.holds("fwd.pointwise", not cross, "xn[s] reads another sample", fq[:1])
         # forward mode
         dx, drho, dinh = sym_array("tx", (NS,)), sym_array("trho", (NS,)), sym_array("tinh", (NS,))
